@@ -12,7 +12,7 @@ PROP = dict(
     lean_modules=["Octo.Props.C03"],
     required_theorems=["Octo.C03.groupBy_sql", "Octo.C03.one_row_per_key", "Octo.C03.C03_denote_sound", "Octo.C03.denoteGNested_sound",
                        "Octo.C03.resolve_first_fit", "Octo.C03.fixed_resolution_fits", "Octo.C03.raw_resolution_refuted",
-                       "Octo.C03.table_matches_c14", "Octo.C03.table_modelled", "Octo.C03.trigger_same_final_result",
+                       "Octo.C03.table_matches_c14", "Octo.C03.table_modelled", "Octo.C03.trigger_same_final_result", "Octo.C03.customTrigger_groupBy_sql",
                        "Octo.C03.C03_full", "Octo.C03.C03_engine_on_simple_plans"],
     needs_binary=True,
     gen=["aggtable"],
@@ -33,9 +33,9 @@ PROP = dict(
                  "equally); its iteration order is canonicalised away on both sides of the correspondence",
                  "no LIMIT without ORDER BY directly above a group-by (the row order is hash order); an inner LIMIT whose cut falls "
                  "between tied but different rows is accepted without checking",
-                 "CustomTriggerGroupBy plans: proved only up to C16's model of SimpleGroupBy (trigger_same_final_result); the "
-                 "changelog pipeline above it (Map, Distinct, OrderSensitiveTransform, table printer on retractions) is covered "
-                 "by the correspondence and by C15's node theorems, not composed in Lean"],
+                 "CustomTriggerGroupBy plans: the node itself is proved (customTrigger_groupBy_sql: its changelog consolidates to "
+                 "groupSem); the changelog pipeline above it (Map, Distinct, OrderSensitiveTransform, table printer on "
+                 "retractions) is covered by the correspondence and by C15's node theorems, not composed in Lean"],
     trusted=["Go compiler and runtime", "encoding/csv, fastjson (input parsing) and the output formatters' number rendering",
              "zyedidia/generic/hashmap and google/btree as containers under a congruent hash / strict weak order (C09)"],
     level_text="Lean theorems: the engine's batch GROUP BY pipeline (overload resolution over the GENERATED aggregate table, "
@@ -43,8 +43,8 @@ PROP = dict(
                "LIMIT, nesting, all five sinks) returns an allowed result of the relational specification Octo.Grp.GQueryResult — "
                "one row per Compare-class of key tuples incl. the NULL key, aggregates from scratch over the non-NULL inputs, NULL "
                "for none — for every query of the fragment and every table (C03_full); overload resolution picks the first "
-               "overload that fits, for all descriptor lists and types (resolve_first_fit); a TRIGGER clause does not change the "
-               "final result (trigger_same_final_result). The model is tied to the real binary by exact comparison of the printed "
+               "overload that fits, for all descriptor lists and types (resolve_first_fit); CustomTriggerGroupBy under any COUNTING / "
+               "END OF STREAM trigger emits a changelog that consolidates to the same groupSem (customTrigger_groupBy_sql). The model is tied to the real binary by exact comparison of the printed "
                "rows in all five output modes; the specification is evaluated on the binary's output as the oracle.",
     level_note="Holds after `fix: aggregate overload resolution tests the non-nullable part of the argument type and asserts "
                "ArgumentType | NULL` (raw_resolution_refuted is the shipped code). Partial: planning/name resolution by "
